@@ -1,4 +1,5 @@
 import Astria.Ledger.Authority
+import Astria.Ledger.Privileged
 /-
   C02 — Only the owner or the designated authority moves funds or changes privileged state.
 -/
@@ -47,5 +48,50 @@ example :
                        bridges := [("b0", ⟨1, "nria", "a0", "a1", false⟩)] }
     mutableOk s "a1" (.unlock "a2" "b0" 5 "nria" "e0" 1) = true ∧
     mutableOk s "a3" (.unlock "a2" "b0" 5 "nria" "e0" 1) = false := by decide
+
+/-- **Frame direction, one action.** Whatever action executes (fee payment included): if anything
+    the sudo address owns (sudo address, IBC sudo address, fee schedule, allowed fee assets,
+    validator set and pending updates, currency pairs with their counters, market map) differs
+    afterwards, the signer is the sudo address of the state the action executed on; if the
+    relayer set differs, the signer is the IBC sudo address; if the entry of a bridge account
+    (rollup, asset, sudo, withdrawer, deposit switch) differs, the signer is that bridge
+    account's sudo address — or the entry did not exist and the account created it itself. -/
+theorem C02_priv_change_authorised (s s' : State) (signer : String) (pos : Nat) (act : Action)
+    (h : execAction s signer pos act = some s') :
+    (sudoOwned s' ≠ sudoOwned s → s.sudo = signer) ∧
+    (s'.relayers ≠ s.relayers → s.ibcSudo = signer) ∧
+    (∀ x, lookup s'.bridges x ≠ lookup s.bridges x →
+      (∃ br, lookup s.bridges x = some br ∧ br.sudo = signer) ∨
+      (x = signer ∧ lookup s.bridges x = none)) :=
+  execAction_priv_change s s' signer pos act h
+
+/-- **Frame direction, one transaction** (any number of actions; the authorities are those of
+    the state the transaction starts on — a former holder, or a holder-to-be, cannot).  The
+    relayer set can also change in a transaction of the sudo address that first re-assigns the
+    IBC sudo address to itself. -/
+theorem C02_tx_priv_change_authorised (s s' : State) (tx : Tx) (h : execTx s tx = .ok s') :
+    (sudoOwned s' ≠ sudoOwned s → s.sudo = tx.signer) ∧
+    (s'.relayers ≠ s.relayers → s.ibcSudo = tx.signer ∨ s.sudo = tx.signer) ∧
+    (∀ x, lookup s'.bridges x ≠ lookup s.bridges x →
+      (∃ br, lookup s.bridges x = some br ∧ br.sudo = tx.signer) ∨
+      (x = tx.signer ∧ lookup s.bridges x = none)) :=
+  execTx_priv_change s s' tx h
+
+/-- ICS20 packets (receive, timeout, error acknowledgement) change no privileged state. -/
+theorem C02_packets_change_no_privileged_state (s : State) :
+    (∀ p : RecvPacket, sudoOwned (recvPacket s p).2 = sudoOwned s ∧
+        (recvPacket s p).2.relayers = s.relayers ∧
+        ∀ x, lookup (recvPacket s p).2.bridges x = lookup s.bridges x) ∧
+    (∀ (p : RefundPacket) s', refundPacket s p = .ok s' → sudoOwned s' = sudoOwned s ∧
+        s'.relayers = s.relayers ∧ ∀ x, lookup s'.bridges x = lookup s.bridges x) :=
+  ⟨fun p => recvPacket_priv_frame s p, fun p s' h => refundPacket_priv_frame s s' p h⟩
+
+/-- Non-vacuity of the frame theorems: a sudo change by the sudo address executes and changes
+    what the sudo address owns; the same action signed by anybody else does not execute. -/
+example :
+    let s : State := { postAspen := true, postBlackburn := true, sudo := "s", ibcSudo := "i" }
+    (∃ s', execAction s "s" 0 (.sudoChange "a0") = some s' ∧ sudoOwned s' ≠ sudoOwned s) ∧
+    execAction s "a3" 0 (.sudoChange "a0") = none := by
+  refine ⟨⟨_, rfl, by decide⟩, by decide⟩
 
 end Astria
